@@ -4,14 +4,16 @@
 
    Vocabulary (Fs.v): a directory tree [t : list node]; [load t] the files the loader
    `new_for_path_rec` reads with their keys; [files_of t] the initial file system; [written_keys t]
-   the keys of the exported map; [normalize_ops chunks v order] the operation sequence of
-   `write_store_at_path` in map order [order], each `write_all` split into the successful
-   write(2) calls [chunks k]; [v] = AsFound (`fs::write` on the note) or Repaired (write
-   `<note>.tmp`, rename over the note; the `fix:` commit R13).  [export k] is the text the
-   in-memory export holds for key k (abstract here).
+   the keys of the exported map; [normalize_ops chunks v order s0] the operation sequence of
+   `write_store_at_path` in map order [order] started on the file system [s0], each `write_all`
+   split into the successful write(2) calls [chunks k]; [v] = AsFound (`fs::write` on the note)
+   or Repaired (create a temporary sibling with O_EXCL under the first name among `<note>.tmp`,
+   `<note>.1.tmp`, `<note>.2.tmp`, .. that does not exist — [tmp_of s (note_path k)], a function
+   of the directory content —, write it, rename it over the note; the `fix:` commits R13 and
+   f503278).  [export k] is the text the in-memory export holds for key k (abstract here).
    Hypotheses, all decidable on the tree: [names_ok] (no empty directory or file name),
-   [irregular t = false] (no loaded file named like `x.md.md` / `.md.md`: class F14),
-   [tmp_clash t = false] (no file already named `<note>.tmp`; only for the repaired variant). *)
+   [irregular t = false] (no loaded file named like `x.md.md` / `.md.md`: class F14).
+   No hypothesis about files that already carry a temporary name: they are never touched. *)
 From IweV Require Import Str RelPath Fs FsFacts.
 Local Open Scope string_scope.
 Local Open Scope list_scope.
@@ -24,9 +26,9 @@ Theorem C19_paths :
   forall (t : list node) (order : list string),
     (forall k, In k order <-> In k (written_keys t)) ->
   forall v : variant,
-    names_ok t = true -> irregular t = false -> (v = Repaired -> tmp_clash t = false) ->
+    names_ok t = true -> irregular t = false ->
     let s0 := files_of t in
-    let s := run_ops (normalize_ops chunks v order) s0 in
+    let s := run_ops (normalize_ops chunks v order s0) s0 in
     (forall l, In l (load t) ->
        note_path (l_key l) = l_path l /\ In (l_path l, l_content l) s0 /\
        lookup (l_path l) s = Some (export (l_key l))) /\
@@ -39,9 +41,9 @@ Check C19_paths :
   forall (t : list node) (order : list string),
     (forall k, In k order <-> In k (written_keys t)) ->
   forall v : variant,
-    names_ok t = true -> irregular t = false -> (v = Repaired -> tmp_clash t = false) ->
+    names_ok t = true -> irregular t = false ->
     let s0 := files_of t in
-    let s := run_ops (normalize_ops chunks v order) s0 in
+    let s := run_ops (normalize_ops chunks v order s0) s0 in
     (forall l, In l (load t) ->
        note_path (l_key l) = l_path l /\ In (l_path l, l_content l) s0 /\
        lookup (l_path l) s = Some (export (l_key l))) /\
@@ -54,8 +56,7 @@ Theorem C19_content :
   forall (export : string -> bytes) (chunks : string -> list bytes),
     (forall k, sconcat (chunks k) = export k) ->
   forall (v : variant) (order : list string) (s0 : fs),
-    (v = Repaired -> forall k, In k order -> lookup (tmp_of (note_path k)) s0 = None) ->
-    forall q, lookup q (run_ops (normalize_ops chunks v order) s0) =
+    forall q, lookup q (run_ops (normalize_ops chunks v order s0) s0) =
               match find (fun k => String.eqb (note_path k) q) order with
               | Some k => Some (export k)
               | None => lookup q s0
@@ -66,48 +67,50 @@ Check C19_content :
   forall (export : string -> bytes) (chunks : string -> list bytes),
     (forall k, sconcat (chunks k) = export k) ->
   forall (v : variant) (order : list string) (s0 : fs),
-    (v = Repaired -> forall k, In k order -> lookup (tmp_of (note_path k)) s0 = None) ->
-    forall q, lookup q (run_ops (normalize_ops chunks v order) s0) =
+    forall q, lookup q (run_ops (normalize_ops chunks v order s0) s0) =
               match find (fun k => String.eqb (note_path k) q) order with
               | Some k => Some (export k)
               | None => lookup q s0
               end.
 Print Assumptions C19_content.
 
-(* Repaired sequence: after ANY prefix of the operations (a crash, a kill, a failing call —
-   which has no effect and stops the sequence), optionally followed by the removal of temporary
-   files (the error path), every file that existed and every note path holds its complete old
-   or its complete exported bytes, and whatever else exists is a temporary sibling `<note>.tmp`
-   (left behind only when the process is killed; it has extension `tmp`, so no loader reads it:
-   lemma tmp_not_loaded). *)
+(* Repaired sequence, ANY directory tree (files that already carry a temporary name included)
+   and any list [order] of keys:
+   after ANY prefix of the operations (a crash, a kill, a failing call — which has no effect and
+   stops the sequence), optionally followed by the removal of the temporary file the run created
+   (the error path; [is_cleanup]: `Unlink (tmp_of s0 (note_path k))`), every file that existed
+   and every note path holds its complete old or its complete exported bytes; and so does EVERY
+   other path (nothing else is created, removed or changed), with at most one exception: the
+   temporary file of the one note that was being written, whose name [tmp_of s0 (note_path k)]
+   is the first of `<note>.tmp`, `<note>.1.tmp`, .. that did NOT exist before the run.  (It is
+   left behind only when the process is killed; it has extension `tmp`, so no loader reads it:
+   lemma tmp_not_loaded; it is never a note path: tmp_not_note.) *)
 Theorem C19_atomic :
   forall (export : string -> bytes) (chunks : string -> list bytes),
     (forall k, sconcat (chunks k) = export k) ->
-  forall (t : list node) (order : list string),
-    (forall k, In k order <-> In k (written_keys t)) ->
-  forall (n : nat) (cleanup : list op),
-    tmp_clash t = false -> Forall (is_cleanup order) cleanup ->
+  forall (t : list node) (order : list string) (n : nat) (cleanup : list op),
     let s0 := files_of t in
-    let s := run_ops (firstn n (normalize_ops chunks Repaired order) ++ cleanup) s0 in
+    Forall (is_cleanup order s0) cleanup ->
+    let s := run_ops (firstn n (normalize_ops chunks Repaired order s0) ++ cleanup) s0 in
     (forall q, In q (map fst s0) -> old_or_new export order s0 s q) /\
     (forall k, In k order -> old_or_new export order s0 s (note_path k)) /\
-    (forall q, lookup q s0 = None -> lookup q s <> None ->
-       exists k, In k order /\ (q = tmp_of (note_path k) \/ q = note_path k)).
+    ((forall q, old_or_new export order s0 s q) \/
+     exists k, In k order /\ lookup (tmp_of s0 (note_path k)) s0 = None /\
+               forall q, q <> tmp_of s0 (note_path k) -> old_or_new export order s0 s q).
 Proof. exact atomic_tree. Qed.
 
 Check C19_atomic :
   forall (export : string -> bytes) (chunks : string -> list bytes),
     (forall k, sconcat (chunks k) = export k) ->
-  forall (t : list node) (order : list string),
-    (forall k, In k order <-> In k (written_keys t)) ->
-  forall (n : nat) (cleanup : list op),
-    tmp_clash t = false -> Forall (is_cleanup order) cleanup ->
+  forall (t : list node) (order : list string) (n : nat) (cleanup : list op),
     let s0 := files_of t in
-    let s := run_ops (firstn n (normalize_ops chunks Repaired order) ++ cleanup) s0 in
+    Forall (is_cleanup order s0) cleanup ->
+    let s := run_ops (firstn n (normalize_ops chunks Repaired order s0) ++ cleanup) s0 in
     (forall q, In q (map fst s0) -> old_or_new export order s0 s q) /\
     (forall k, In k order -> old_or_new export order s0 s (note_path k)) /\
-    (forall q, lookup q s0 = None -> lookup q s <> None ->
-       exists k, In k order /\ (q = tmp_of (note_path k) \/ q = note_path k)).
+    ((forall q, old_or_new export order s0 s q) \/
+     exists k, In k order /\ lookup (tmp_of s0 (note_path k)) s0 = None /\
+               forall q, q <> tmp_of s0 (note_path k) -> old_or_new export order s0 s q).
 Print Assumptions C19_atomic.
 
 (* what [old_or_new] says, unfolded once so that the statement above can be read on its own *)
@@ -121,11 +124,28 @@ Proof. intros. reflexivity. Qed.
 (* the hypotheses are satisfiable by a non-trivial tree: a note in the root, one in a nested
    directory with a space in its name, a non-note file, a file the loader skips *)
 Example C19_nonvacuous :
-  let t := [File "a.md" "# A"; Dir "my dir" [Dir "e" [File "b c.md" "* x"]; File "notes.txt" "t"]; File ".md" "x"] in
-  names_ok t = true /\ irregular t = false /\ tmp_clash t = false /\
+  let t := [File "a.md" "# A"; File "a.md.tmp" "stale";
+            Dir "my dir" [Dir "e" [File "b c.md" "* x"]; File "notes.txt" "t"]; File ".md" "x"] in
+  names_ok t = true /\ irregular t = false /\
   written_keys t = ["a"; "my dir/e/b c"] /\
   map l_path (load t) = ["a.md"; "my dir/e/b c.md"] /\
-  map fst (files_of t) = ["a.md"; "my dir/e/b c.md"; "my dir/notes.txt"; ".md"].
+  map fst (files_of t) = ["a.md"; "a.md.tmp"; "my dir/e/b c.md"; "my dir/notes.txt"; ".md"].
+Proof. vm_compute. repeat split. Qed.
+
+(* the temporary name is a function of the directory: with `a.md.tmp` and `a.md.1.tmp` already
+   there, the writer probes both (each open answers EEXIST and changes nothing), creates
+   `a.md.2.tmp`, and a complete run leaves the two stale files exactly as they were *)
+Example C19_stale_tmp_untouched :
+  let s0 := files_of [File "a.md" "old"; File "a.md.tmp" "stale"; File "a.md.1.tmp" "stale 1"] in
+  let chunks := fun _ : string => ["ne"; "w"] in
+  normalize_ops chunks Repaired ["a"] s0 =
+    [OpenNew "a.md.tmp"; OpenNew "a.md.1.tmp"; OpenNew "a.md.2.tmp";
+     Append "a.md.2.tmp" "ne"; Append "a.md.2.tmp" "w"; Close "a.md.2.tmp";
+     Rename "a.md.2.tmp" "a.md"] /\
+  let s := run_ops (normalize_ops chunks Repaired ["a"] s0) s0 in
+  lookup "a.md" s = Some "new" /\ lookup "a.md.tmp" s = Some "stale" /\
+  lookup "a.md.1.tmp" s = Some "stale 1" /\ lookup "a.md.2.tmp" s = None /\
+  tmp_cand "a.md" 12 = "a.md.12.tmp".
 Proof. vm_compute. repeat split. Qed.
 
 (* As found (`fs::write` truncates the note first): a crash right after the open leaves the
@@ -138,7 +158,7 @@ Theorem C19_as_found_refuted :
     (forall k, In k order <-> In k (written_keys t)) /\
     names_ok t = true /\ irregular t = false /\
     lookup "a.md" (files_of t) = Some "old" /\
-    lookup "a.md" (run_ops (firstn n (normalize_ops chunks AsFound order)) (files_of t)) = Some "".
+    lookup "a.md" (run_ops (firstn n (normalize_ops chunks AsFound order (files_of t))) (files_of t)) = Some "".
 Proof. exact as_found_truncates. Qed.
 
 Check C19_as_found_refuted :
@@ -149,7 +169,7 @@ Check C19_as_found_refuted :
     (forall k, In k order <-> In k (written_keys t)) /\
     names_ok t = true /\ irregular t = false /\
     lookup "a.md" (files_of t) = Some "old" /\
-    lookup "a.md" (run_ops (firstn n (normalize_ops chunks AsFound order)) (files_of t)) = Some "".
+    lookup "a.md" (run_ops (firstn n (normalize_ops chunks AsFound order (files_of t))) (files_of t)) = Some "".
 Print Assumptions C19_as_found_refuted.
 
 (* F14 (open): `x.md.md` is loaded under key `x` and written to `x.md` — a file is created and
@@ -160,7 +180,7 @@ Theorem C19_double_md_refuted :
     let chunks := fun _ : string => ["new"] in
     (forall k, In k order <-> In k (written_keys t)) /\
     irregular t = true /\
-    let s := run_ops (normalize_ops chunks AsFound order) (files_of t) in
+    let s := run_ops (normalize_ops chunks AsFound order (files_of t)) (files_of t) in
     lookup "x.md" (files_of t) = None /\ lookup "x.md" s = Some "new" /\
     lookup "x.md.md" s = Some "old".
 Proof. exact double_md_misplaced. Qed.
@@ -171,7 +191,7 @@ Check C19_double_md_refuted :
     let chunks := fun _ : string => ["new"] in
     (forall k, In k order <-> In k (written_keys t)) /\
     irregular t = true /\
-    let s := run_ops (normalize_ops chunks AsFound order) (files_of t) in
+    let s := run_ops (normalize_ops chunks AsFound order (files_of t)) (files_of t) in
     lookup "x.md" (files_of t) = None /\ lookup "x.md" s = Some "new" /\
     lookup "x.md.md" s = Some "old".
 Print Assumptions C19_double_md_refuted.
